@@ -123,6 +123,9 @@ type sub struct {
 	walkEnd     int32
 	walkUnsure  bool
 
+	syncSeen int32
+	sentSeen [2][2]int64 // value of sentinel leaf [generation][branch] last delivered
+
 	mu sync.Mutex
 	qs []int64 // queue size reported for this subscriber when response i was dequeued (-1: not attributable)
 
@@ -573,47 +576,15 @@ func parse(m *pb.SubscribeResponse) rmsg {
 
 func (t *trial) hasSentinel(s *sub, g int) bool {
 	// The last-written sentinel the subscriber covers, with the value written.
-	var want *leaf
-	for bi := range branches {
+	for bi := len(branches) - 1; bi >= 0; bi-- {
 		if l := t.sent[g][bi]; s.covers(l.path) {
-			want = l
+			return atomic.LoadInt64(&s.sentSeen[g][bi]) == l.lastVal[l.inc]
 		}
 	}
-	if want == nil {
-		return true
-	}
-	v := want.lastVal[want.inc]
-	found := false
-	s.stream.WaitSent(closedCtx, func(sent []*pb.SubscribeResponse) bool {
-		for i := len(sent) - 1; i >= 0; i-- {
-			if m := parse(sent[i]); m.ok && !m.sync && !m.del && m.key == want.key && m.val == v {
-				found = true
-				break
-			}
-		}
-		return true
-	})
-	return found
+	return true
 }
 
-func hasSync(s *sub) bool {
-	found := false
-	s.stream.WaitSent(closedCtx, func(sent []*pb.SubscribeResponse) bool {
-		for _, m := range sent {
-			if m.GetSyncResponse() {
-				found = true
-			}
-		}
-		return true
-	})
-	return found
-}
-
-var closedCtx = func() context.Context {
-	c, cancel := context.WithCancel(context.Background())
-	cancel()
-	return c
-}()
+func hasSync(s *sub) bool { return atomic.LoadInt32(&s.syncSeen) == 1 }
 
 // observable: a number that changes whenever anything observable happens.
 func (t *trial) observable() int64 {
@@ -729,6 +700,21 @@ func (t *trial) startSub(s *sub) {
 			<-s.open
 		}
 		return nil
+	}
+	s.stream.OnSend = func(_ int, m *pb.SubscribeResponse) {
+		if m.GetSyncResponse() {
+			atomic.StoreInt32(&s.syncSeen, 1)
+			return
+		}
+		if pm := parse(m); pm.ok && !pm.del {
+			for g := 0; g < 2; g++ {
+				for bi := range branches {
+					if t.sent[g][bi].key == pm.key {
+						atomic.StoreInt64(&s.sentSeen[g][bi], pm.val)
+					}
+				}
+			}
+		}
 	}
 	s.stream.Push(s.req)
 	t.byReqMu.Lock()
@@ -873,7 +859,14 @@ func (t *trial) run() (sus *suspicion, judged bool) {
 			return false
 		})
 		if !ok {
-			r.Inconclusive("a subscription neither delivered its sync_response nor reached its gate within the grace period")
+			if st := t.stalledNow(); len(st) > 0 && !s.blocked() {
+				blocks := findBlocks(goroutineDump(), "subscribe.(*Server).")
+				t.viol("other-subscriber-starved", fmt.Sprintf("subscriber %d is not held by the harness but did not receive its snapshot and sync_response for %v with nothing else happening, while subscriber(s) %v are blocked in Send", s.idx, stuckGrace, st),
+					map[string]interface{}{"subscribe_goroutines": clip(strings.Join(blocks, "\n\n"), 4000), "responses_received": s.stream.NSent()})
+				skipMode[t.mode] = true
+			} else {
+				r.Inconclusive("a subscription neither delivered its sync_response nor reached its gate within the grace period")
+			}
 			return nil, false
 		}
 		if s.walkUnsure {
@@ -1232,7 +1225,16 @@ func (t *trial) judge(s *sub) bool {
 			}
 		}
 		extra["last_responses"] = tail
-		t.viol(sig, fmt.Sprintf("subscriber %d (paths %v, stall pattern %s at response #%d): %s", s.idx, s.paths, patName[s.pattern], s.gateAt, what), extra)
+		who := fmt.Sprintf("subscriber %d (paths %v, stall pattern %s", s.idx, s.paths, patName[s.pattern])
+		switch {
+		case s.late:
+			who = fmt.Sprintf("late subscriber %d (joined when all was quiet, path root", s.idx)
+		case s.pattern != pNever && s.hasEntered():
+			who += fmt.Sprintf(", held at response #%d", s.gateAt)
+		case s.pattern != pNever:
+			who += ", gate never reached"
+		}
+		t.viol(sig, who+"): "+what, extra)
 	}
 	postRelease := func(i int) bool {
 		return s.pattern == pUntilDone && s.hasEntered() && i > s.gateAt
@@ -1263,11 +1265,11 @@ func (t *trial) judge(s *sub) bool {
 		}
 		inc, written := l.written[pm.val]
 		if !written {
-			fail("invented-value", fmt.Sprintf("response #%d carries %s=%d, a value never written to that leaf", i, pm.key, pm.val), nil)
+			fail("invented-value", fmt.Sprintf("response #%d carries %v=%d, a value never written to that leaf", i, l.path, pm.val), nil)
 			return false
 		}
 		if a.seen && !a.lastDel && pm.val < a.lastVal {
-			fail("older-value-after-newer", fmt.Sprintf("response #%d carries %s=%d after %d had been delivered", i, pm.key, pm.val, a.lastVal), nil)
+			fail("older-value-after-newer", fmt.Sprintf("response #%d carries %v=%d after %d had been delivered", i, l.path, pm.val, a.lastVal), nil)
 			return false
 		}
 		a.sum += 1 + int(pm.dup)
@@ -1281,14 +1283,14 @@ func (t *trial) judge(s *sub) bool {
 			// of the leaf (of the incarnation the queue entry stands for).
 			r.Count("clause4_post_release_values_checked", 1)
 			if l.lastVal[inc] != pm.val {
-				fail("stale-after-release", fmt.Sprintf("response #%d was dequeued after release, when the writer had already finished, but carries %s=%d while the newest value of that leaf (incarnation %d) is %d", i, pm.key, pm.val, inc, l.lastVal[inc]), nil)
+				fail("stale-after-release", fmt.Sprintf("response #%d was dequeued after release, when the writer had already finished, but carries %v=%d while the newest value of that leaf (incarnation %d) is %d", i, l.path, pm.val, inc, l.lastVal[inc]), nil)
 				return false
 			}
 			if postIncs[pm.key] == nil {
 				postIncs[pm.key] = map[int]bool{}
 			}
 			if postIncs[pm.key][inc] {
-				fail("not-coalesced-after-release", fmt.Sprintf("response #%d: after release leaf %s (incarnation %d) was delivered more than once although nothing was written in between", i, pm.key, inc), nil)
+				fail("not-coalesced-after-release", fmt.Sprintf("response #%d: after release leaf %v (incarnation %d) was delivered more than once although nothing was written in between", i, l.path, inc), nil)
 				return false
 			}
 			postIncs[pm.key][inc] = true
@@ -1311,16 +1313,15 @@ func (t *trial) judge(s *sub) bool {
 	sort.Strings(keys)
 	for _, k := range keys {
 		l := t.byKey[k]
-		var lo, hi, dels int
+		var lo, hi, dels, walk int
 		switch {
 		case s.late:
 			if l.exists {
-				lo, hi = 1, 1
+				lo, hi, walk = 1, 1, 1
 			}
 		case !s.covers(l.path):
 			continue
 		default:
-			walk := 0
 			if l.prefInc > 0 {
 				walk = s.walkHits(l.path)
 			}
@@ -1336,7 +1337,7 @@ func (t *trial) judge(s *sub) bool {
 		}
 		detail := map[string]interface{}{"leaf": l.path, "offers_model": hi, "delete_notifications_model": dels, "sum_1_plus_duplicates": a.sum, "delete_responses": a.dels}
 		if a.sum > hi || a.dels > dels {
-			fail("dup-count-mismatch", fmt.Sprintf("leaf %v: its update responses add up to sum(1+duplicates)=%d and %d delete responses, but only %d updates (%d from the snapshot walk) and %d delete notifications were ever offered to it", l.path, a.sum, a.dels, hi, hi-l.streamOffers, dels), detail)
+			fail("dup-count-mismatch", fmt.Sprintf("leaf %v: its update responses add up to sum(1+duplicates)=%d and %d delete responses, but only %d updates (%d of them by the snapshot walk) and %d delete notifications were ever offered to it", l.path, a.sum, a.dels, hi, walk, dels), detail)
 			return false
 		}
 		if !full {
